@@ -35,6 +35,10 @@ long g_wrap_alloc_count = 0, g_wrap_rng_count = 0, g_wrap_rand_count = 0, g_wrap
 int  g_log_allocs = 0;
 
 static void out_write(const char * p, size_t n) {
+	/* a defect that makes a command loop must not fill the disk: after 2 GiB of events the process gives up (the driver sees a dead shard) */
+	static unsigned long long total = 0;
+	total += n;
+	if (total > (2ULL << 30)) _exit(98);
 	while (n > 0) {
 		ssize_t w = write(out_fd, p, n);
 		if (w < 0) { if (errno == EINTR) continue; return; }
